@@ -19,7 +19,7 @@
                           handed (/repo 592b6f8: leaving a nested body restores the enclosing ones).
    Executable definitions only; the theorems are in Proofs/FrameProofs.v, stated in Props/C04.v. *)
 From Coq Require Import List ZArith NArith Bool.
-From PV Require Import Lib.ListX Model.Rel.
+From PV Require Import Lib.ListX Model.Rel Model.Window.
 Import ListNotations.
 Local Open Scope Z_scope.
 
@@ -177,30 +177,43 @@ Definition rows_to (i j : Z) (e : sbound) : bool :=
   | SPreceding None => false
   end.
 
-(* RANGE: CURRENT ROW means "the peers of the current row" (rows equal under the ORDER BY keys);
-   numeric offsets need exactly one ascending ORDER BY key with integer values (otherwise SQL rejects the
-   query; modelled as selecting nothing) *)
-Definition key_int (keys : list (bool * expr)) (r : row) : option Z :=
+(* RANGE: CURRENT ROW means "the peers of the current row" (rows equal under ALL the ORDER BY keys; with no ORDER BY
+   every row is a peer of every row); numeric offsets need exactly one ORDER BY key with integer values -- otherwise
+   the engines reject the query (`sql_accepts` below; here: selects nothing) -- and are measured ALONG the order:
+   with a DESC key `d PRECEDING` is the key value k + d *)
+Definition key_int (keys : list (bool * expr)) (r : row) : option (bool * Z) :=
   match keys with
-  | [(false, ke)] => match ev r ke with VInt z => Some z | _ => None end
+  | [(desc, ke)] => match ev r ke with VInt z => Some (desc, z) | _ => None end
   | _ => None
   end.
 Definition range_from (keys : list (bool * expr)) (me r : row) (s : sbound) : bool :=
   match s with
   | SPreceding None => true
   | SCurrentRow => keys_le keys me r
-  | SPreceding (Some d) => match key_int keys me, key_int keys r with Some k, Some x => k - d <=? x | _, _ => false end
-  | SFollowing (Some d) => match key_int keys me, key_int keys r with Some k, Some x => k + d <=? x | _, _ => false end
+  | SPreceding (Some d) => match key_int keys me, key_int keys r with
+                           | Some (desc, k), Some (_, x) => if desc then x <=? k + d else k - d <=? x | _, _ => false end
+  | SFollowing (Some d) => match key_int keys me, key_int keys r with
+                           | Some (desc, k), Some (_, x) => if desc then x <=? k - d else k + d <=? x | _, _ => false end
   | SFollowing None => false
   end.
 Definition range_to (keys : list (bool * expr)) (me r : row) (e : sbound) : bool :=
   match e with
   | SFollowing None => true
   | SCurrentRow => keys_le keys r me
-  | SFollowing (Some d) => match key_int keys me, key_int keys r with Some k, Some x => x <=? k + d | _, _ => false end
-  | SPreceding (Some d) => match key_int keys me, key_int keys r with Some k, Some x => x <=? k - d | _, _ => false end
+  | SFollowing (Some d) => match key_int keys me, key_int keys r with
+                           | Some (desc, k), Some (_, x) => if desc then k - d <=? x else x <=? k + d | _, _ => false end
+  | SPreceding (Some d) => match key_int keys me, key_int keys r with
+                           | Some (desc, k), Some (_, x) => if desc then k + d <=? x else x <=? k - d | _, _ => false end
   | SPreceding None => false
   end.
+
+(* SPECIFICATION of what the engines accept (validated on SQLite by the range-x stream; PostgreSQL and the SQL standard
+   say the same): a RANGE frame with a numeric offset needs exactly one ORDER BY expression *)
+Definition has_offset (b : sbound) : bool := match b with SPreceding (Some _) | SFollowing (Some _) => true | _ => false end.
+Definition sql_accepts (f : sframe) (n_order_by : nat) : bool :=
+  sframe_ok f && (match f_units f with
+                  | KRange => negb (has_offset (f_start f) || has_offset (f_end f)) || Nat.eqb n_order_by 1
+                  | KRows => true end).
 
 (* the frame an OVER (...) WITHOUT frame clause has *)
 Definition sql_implicit_frame (sorted : bool) : sframe :=
@@ -229,6 +242,16 @@ Definition sql_frame_segment (f : option sframe) (keys : list (bool * expr)) (p 
 Definition rel_frame (f : frame3) : frame :=
   match f with (KRows, a, b) => FRows a b | (KRange, a, b) => FRange a b end.
 Definition prql_segment (f : frame3) (keys : list (bool * expr)) (p : rel) (i : nat) : list nat := seg (rel_frame f) keys p i.
+
+(* the documented meaning of range frames beyond Rel.v's domain: Model/Window.v segx *)
+Definition prql_segmentx (f : frame3) (keys : list (bool * expr)) (p : rel) (i : nat) : list nat := segx (rel_frame f) keys p i.
+(* is a bound an offset (neither open nor 0)? *)
+Definition is_offset (b : option Z) : bool := match b with Some z => negb (z =? 0) | None => false end.
+Definition offset_free (f : frame3) : bool := match f with (_, a, b) => negb (is_offset a) && negb (is_offset b) end.
+(* domain of the generalised reading: no offsets, or one key (either direction) that is an integer on every row *)
+Definition one_int_key (keys : list (bool * expr)) (p : rel) : Prop :=
+  exists desc ke, keys = [(desc, ke)] /\ forall r, In r p -> exists z, ev r ke = VInt z.
+Definition range_domain (f : frame3) (keys : list (bool * expr)) (p : rel) : Prop := offset_free f = true \/ one_int_key keys p.
 
 (* domain of range frames in the reference semantics: one ascending key, integer on every row *)
 Definition range_key_ok (keys : list (bool * expr)) (p : rel) : Prop :=
